@@ -55,6 +55,11 @@ class _h:
     bound_note = BOUND
     configs = staticmethod(_h_cfgs)
 
+    def thorough_extra():
+        return [{"n": 3, "shape": (2, 2), "kinds": ("gapped", "fixed"), "weights": "float64", "nan": False},
+                {"n": 3, "shape": (2, 3), "kinds": ("static", "numpy"), "weights": None, "nan": False},
+                {"n": 2, "shape": (2, 1, 2), "kinds": ("gapped", "fixed", "numpy"), "weights": "float64", "nan": False}]
+
     def inputs(b):
         c = b.cfg
         d = len(c.shape)
@@ -298,6 +303,10 @@ NAMES = ("x", "y", "z", "t")
 class _projection:
     bounded = True
     bound_note = "projection: dimension 2..4 (all shapes up to (2,2,2)/(1,2,1,2)), axis tuples enumerated; contents symbolic"
+
+    def thorough_extra():
+        return [{"shape": (2, 2, 2), "axes": ax} for ax in ((0,), (1,), (2,), (0, 1), (0, 2), (1, 2), (2, 1))] + \
+               [{"shape": (2, 1, 2, 2), "axes": ax} for ax in ((0, 3), (3, 2, 0), (1,), (2, 3))] + [{"shape": (3, 2), "axes": (0,)}, {"shape": (2, 3), "axes": ("y",)}]
     configs = staticmethod(_proj_cfgs)
 
     def inputs(b):
